@@ -24,16 +24,19 @@ def run(tier, seed):
               FB.AstBuilder.__init__)
     ck.assume('the fault schedule (which of 10 fault kinds each of three formula cells carries, finished or not) is chosen by boolean selectors; every explored path builds and calculates the real model natively',
               'missing / unreadable workbook FILES are represented by references to a book that does not exist on disk (dictionary-built models)')
-    ck.out_of_scope('workbooks read from .xlsx files', 'dependency graphs larger than the 10-cell template', 'faults inside defined names')
+    ck.out_of_scope('workbooks read from .xlsx files other than the one-sheet harness workbook', 'dependency graphs larger than the 10-cell template', 'faults inside defined names other than an undefined name')
     ck.check_known_witness('C14-absent-range-overrides-known-cells', WITNESS)
     quick = tier == 'quick'
     src = open(os.path.join(ROOT, 'harness', 'c14_faults.py')).read()
     hs, batch = [], Batch()
     try:
-        for f1 in range(10):
+        for f1 in range(11):
             h = Harness(ck, 'c14_faults_%d' % f1, src.replace('__F1__', str(f1))); hs.append(h)
             batch.add(h, 170 if quick else 900, only=['faults_ok'],
                       bounds='fault kind %d on B1, any of 10 kinds on B2 and on T!A1, finished or not: 200 fault schedules' % f1)
+        fsrc = open(os.path.join(ROOT, 'harness', 'c14_files.py')).read()
+        h = Harness(ck, 'c14_files', fsrc); hs.append(h)
+        batch.add(h, 300 if quick else 900, only=['files_ok'], bounds='a workbook READ FROM A FILE (names from its name table): each of two formula cells carries one of 10 faults (unknown function incl. non-ASCII names and _xlfn., absent sheet, absent workbook, undefined name, defined name over / alias of an undefined name): 100 schedules')
         batch.run()
     finally:
         for h in hs:
